@@ -193,6 +193,8 @@ func (s *State) evalPostfixExpression(node *ast.PostfixExpression) object.Object
 // but now it's less clear because of the need to unwrap references too. TODO: fix/clarify.
 func (s *State) evalInternal(node any) object.Object { //nolint:funlen,gocognit,gocyclo // quite a lot of cases.
 	if s.Context != nil && s.Context.Err() != nil {
+		// Not a result of the code: a function that catch()es this error must not be memoized with it.
+		s.env.TriggerNoCache()
 		return s.Error(s.Context.Err())
 	}
 	switch node := node.(type) {
